@@ -6,9 +6,9 @@ CONSTANTS
   NoNode = NoNode
   Txs = {t1, t2}
   MaxLog = 3
-  MaxProp = 4
+  MaxProp = 3
   MaxCrash = 2
-  MaxLC = 2
+  MaxLC = 1
   MaxDup = 1
   SnapCount = 2
   MaxLagNodes = 1
